@@ -2200,6 +2200,7 @@ class Node(_protocols.NodeProtocol, _display.PrettyPrintable):
             ValueError: If `num_outputs`, when not None, is not the same as the length of the outputs.
             ValueError: If an output value is None.
             ValueError: If an output value has a producer set already.
+            ValueError: If an output value is given more than once.
         """
         # Check num_outputs and outputs are consistent
         if num_outputs is not None and outputs is not None and num_outputs != len(outputs):
@@ -2218,6 +2219,11 @@ class Node(_protocols.NodeProtocol, _display.PrettyPrintable):
                         f"Supplied output value cannot have a producer when used for initializing a Node. "
                         f"Output: {output}. All outputs: {outputs}"
                     )
+            if len({id(output) for output in outputs}) != len(outputs):
+                # The producer index of a value can only name one position
+                raise ValueError(
+                    f"An output value cannot be used more than once. All outputs: {outputs}"
+                )
             result = []
             for i, output in enumerate(outputs):
                 output._producer = self  # pylint: disable=protected-access
